@@ -14,7 +14,8 @@
  *                           boundary, both mapped), !run=L (L bytes 'a', no NUL, up to a PROT_NONE page), !runz=L (L bytes
  *                           'a' + NUL), !how=F,M,R (struct open_how), !howpend=F (open_how whose first 8 bytes are the
  *                           last 8 of a page, rest PROT_NONE), !hownone (open_how on a PROT_NONE page),
- *                           !at=A,N (string N placed at the exact address A, page(s) mapped MAP_FIXED)
+ *                           !at=A,N (string N placed at the exact address A, page(s) mapped MAP_FIXED),
+ *                           !wo=N / !wospan=N (string N in / running into a page that is mapped PROT_WRITE only)
  *   fork{ ... }  vfork{ ... }  thread{ ... }  daemon{ ... }     run the nested block in a child / vfork child / thread /
  *                           double-forked setsid'ed signal-ignoring grandchild; R line carries the child's pid
  *   wait                    wait4(-1) until ECHILD          waitn:<k>   reap k children
@@ -168,6 +169,18 @@ static i64 parg(const char *f) {
     u64 np = (tot + PAGE - 1) / PAGE + 1; if (np < 2) np = 2;
     char *p = map_pages(np, 1); if (!p) return 8;
     char *d = p + (np - 1) * PAGE - tot; memset(d, 'a', l); if (z) d[l] = 0; return (i64)d;
+  }
+  if (pfx(f, "wospan=") || pfx(f, "wo=")) {
+    /* string N in a page mapped PROT_WRITE only (readable for the CPU and the kernel on x86, not for process_vm_readv);
+       wospan: the string starts in a readable page and continues in the write-only one */
+    int span = pfx(f, "wospan=");
+    const char *s = strn(pint(f + (span ? 7 : 3), 0)); u64 l = slen(s) + 1;
+    if (l > PAGE) return (i64)s;
+    char *p = map_pages(3, 1); if (!p) return 8;
+    u64 before = span ? l / 2 : 0; if (span && before == 0) before = 1;
+    char *d = p + PAGE - before; memcpy(d, s, l);
+    sc3(SYS_mprotect, (i64)(p + PAGE), PAGE, 2 /* PROT_WRITE */);
+    return (i64)d;
   }
   if (pfx(f, "at=")) {
     /* string N at the exact address A (what a Go tracee's heap strings look like: 0xc000......) */
